@@ -210,6 +210,61 @@ class C11:
                   "finished() discards from the pending set while a side may still be changed")
 
 
+    # ------------------------------------------------------------------ X7
+    def x7(self):
+        """The oust / slot-removal statements of the index code run under exactly the guards they have today.
+        Each row: (function, construct pattern, allowed guard literals).  A literal outside the allowed set means the
+        clean-up became conditional on something else - a previous owner keeps an id / slot it no longer carries."""
+        rep, ctx = self.rep, self.ctx
+        rep.rule("C11.X7", "index clean-up is unconditional: the statements that take an id / (path,id) slot away from its previous owner "
+                 "(in _change_oid and _change_path) are guarded by nothing beyond 'there is a previous owner and it is another entry' / "
+                 "'the slot exists'; _change_oid removes the slots of both the entry's old id and the new id", expect_min=6)
+        f = self.state.methods["_change_oid"]
+        side, ent, oid = f.params()[1:4]
+        g = self.state.methods["_change_path"]
+        gside, gent, gpath = g.params()[1:4]
+        rows = [
+            (f, "$P[%s].oid = None" % side, [("$P", True), ("$P is %s" % ent, False)]),
+            (f, "self._oids[%s].pop($K, None)" % side, []),
+            (f, "self._paths[%s][$Q].pop($K, None)" % side, [("$P", True), ("$P[%s].path" % side, True), ("$Q in self._paths[%s]" % side, True)]),
+            (f, "%s[%s]._oid = %s" % (ent, side, oid), [("%s is None" % oid, False)]),
+            (f, "self._oids[%s][%s] = %s" % (side, oid, ent), [("%s is None" % oid, False)]),
+            (g, "$P[%s]._path = None" % gside, [("%s[%s].oid in $D" % (gent, gside), True), (gpath, True), ("$O == %s" % gpath, False)]),
+            (g, "self._paths[%s][$O].pop(%s[%s].oid, None)" % (gside, gent, gside), [("$O", True), ("$O == %s" % gpath, False), ("$O in self._paths[%s]" % gside, True)]),
+            (g, "self._paths[%s][%s][%s[%s].oid] = %s" % (gside, gpath, gent, gside, gent), [(gpath, True), ("$O == %s" % gpath, False)]),
+            (g, "%s[%s]._path = %s" % (gent, gside, gpath), [(gpath, True), ("$O == %s" % gpath, False)]),
+        ]
+        for fn, construct, allowed in rows:
+            hits = []
+            for n in ctx.own_nodes(fn):
+                if isinstance(n, (ast.Assign, ast.Expr, ast.Call)):
+                    m = pat.match(construct, n.value if isinstance(n, ast.Expr) else n)
+                    if m is not None and not (isinstance(n, ast.Call) and any(isinstance(pn, ast.Expr) and pn.value is n for pn in ctx.own_nodes(fn))):
+                        hits.append((n, m))
+            key = "%s|%s" % (fn.name, construct)
+            if not hits:
+                rep.violation("C11.X7", key, fn, "the index clean-up statement `%s` is gone from %s" % (construct, fn.name))
+                continue
+            for n, m in hits:
+                facts = ctx.facts_at(fn, n)
+                extra = []
+                for (txt, pol) in sorted(facts):
+                    e = ast.parse(txt, mode="eval").body
+                    if not any(pol == apol and pat.match(ap, e) is not None for ap, apol in allowed):
+                        extra.append("%s%s" % ("" if pol else "not ", txt))
+                rep.check("C11.X7", key, ctx.line(fn, n), not extra, "guards: %s" % sorted(facts),
+                          "`%s` in %s is now also conditional on [%s]: when that does not hold the previous owner keeps an id / slot it no longer "
+                          "carries (two owners of one id, or a slot leading to an entry without it)" % (ast.unparse(n)[:60], fn.name, "; ".join(extra)), func=fn.qname)
+        # both the old and the new id are vacated
+        loops = [n for n in ctx.own_nodes(f) if isinstance(n, ast.For) and any(isinstance(x, ast.Call) and pat.match("self._oids[%s].pop($$$)" % side, x) is not None for x in ast.walk(n))]
+        good = False
+        for lp in loops:
+            names = {ast.unparse(x) for x in ast.walk(lp.iter)}
+            good = good or ("%s[%s].oid" % (ent, side) in names and oid in names)
+        rep.check("C11.X7", "_change_oid|both-ids", f, good, "slots of the entry's old id and of the new id are vacated",
+                  "_change_oid no longer vacates both the entry's previous id and the incoming id")
+
+
 def run(ctx: Ctx, rep: Report, tier: str):
     c = C11(ctx, rep)
     c.x1()
@@ -220,3 +275,4 @@ def run(ctx: Ctx, rep: Report, tier: str):
     c.x4()
     c.x5()
     c.x6()
+    c.x7()
